@@ -297,17 +297,41 @@ def structural(prop="C16"):
                         v = v.body          # an entity whose page is not written is exported without a URL (the empty string: dict2obj keeps it empty)
                     ok = (isinstance(v, ast.JoinedStr) and len(v.values) == 2 and isinstance(v.values[0], ast.Constant) and v.values[0].value == EXPORT_PREFIX
                           and isinstance(v.values[1], ast.FormattedValue) and ast.unparse(v.values[1].value) == "intObj.get_url()")
-    out.append(OR(id=f"{prop}.S.obj2dict.exports_dot_slash_relative_url", status=PROVED if ok else REFUTED, kind="S", target="ford.external_project.obj2dict", role="post", backend="ast",
-                  desc="the exported external_url of an entity is './' followed by its get_url() (the form whose first component dict2obj strips: hypothesis of the round-trip postcondition), "
-                       "or empty for an entity whose page is not written",
-                  witness=None if ok else {"external_url expression": seen}))
+    from contracts import astform as _af
+    r_url = OR(id=f"{prop}.S.obj2dict.exports_dot_slash_relative_url", status=PROVED, kind="S", target="ford.external_project.obj2dict", role="post", backend="ast",
+               desc="the exported external_url of an entity is './' followed by its get_url() (the form whose first component dict2obj strips: hypothesis of the round-trip postcondition), "
+                    "or empty for an entity whose page is not written",
+               witness=None if ok else {"external_url expression": seen})
+    out.append(_af.decide(r_url, ok, lambda: __import__("bounded.c16", fromlist=["x"]).search(("end_to_end", "remote"))))
     # 1b. obj2dict exports list attributes filtered by accessibility
-    comps = [n for n in ast.walk(fn) if isinstance(n, ast.ListComp) and "obj2dict(item)" in ast.unparse(n.elt)]
-    okf = len(comps) == 1 and len(comps[0].generators) == 1 and len(comps[0].generators[0].ifs) == 1 and \
-        ast.unparse(comps[0].generators[0].ifs[0]).replace(" ", "") == "isinstance(item,str)orgetattr(item,'permission','public')in('public','protected')"
-    out.append(OR(id=f"{prop}.S.obj2dict.lists_hold_accessible_entities_only", status=PROVED if okf else REFUTED, kind="S", target="ford.external_project.obj2dict", role="post", backend="ast",
-                  desc="the entity lists of an exported module / type are filtered to entries whose accessibility is public or protected (names of unresolved entities pass as they are)",
-                  witness=None if okf else {"list comprehensions over obj2dict(item)": [ast.unparse(c) for c in comps]}))
+    # (the filter is *evaluated*, in the module's own namespace, on one item of every kind that matters - a name, entities that are public / protected / private, an entity
+    #  without a permission: whatever the filter is called or however it is spelled, these five answers are its meaning for the property)
+    comps = [n for n in ast.walk(fn) if isinstance(n, ast.ListComp) and isinstance(n.elt, ast.Call) and ast.unparse(n.elt.func) == "obj2dict" and len(n.generators) == 1]
+    okf, seenf = False, [ast.unparse(c) for c in comps]
+    if len(comps) == 1 and isinstance(comps[0].generators[0].target, ast.Name) and comps[0].generators[0].ifs:
+        g = comps[0].generators[0]
+        cond = g.ifs[0] if len(g.ifs) == 1 else ast.BoolOp(op=ast.And(), values=list(g.ifs))
+        lam = ast.Expression(body=ast.Lambda(args=ast.arguments(posonlyargs=[], args=[ast.arg(arg=g.target.id)], kwonlyargs=[], kw_defaults=[], defaults=[]), body=cond))
+        ast.fix_missing_locations(lam)
+        try:
+            flt = eval(compile(lam, "<obj2dict filter>", "eval"), dict(vars(loader.import_repo("ford.external_project"))))
+            E = lambda **kw: type("Entity", (), kw)()
+            got = [bool(flt(x)) for x in ("a_name", E(permission="public"), E(permission="protected"), E(permission="private"), E())]
+            okf = got == [True, True, True, False, True]
+            seenf = {"filter": ast.unparse(cond), "answers for (name, public, protected, private, no permission)": got}
+        except Exception as e:
+            seenf = {"filter": ast.unparse(cond), "evaluation failed": f"{type(e).__name__}: {e}"}
+    from contracts import astform
+    rf = OR(id=f"{prop}.S.obj2dict.lists_hold_accessible_entities_only", status=PROVED, kind="S", target="ford.external_project.obj2dict", role="post", backend="ast+python",
+            desc="the entity lists of an exported module / type are filtered to entries whose accessibility is public or protected (names of unresolved entities pass as they are)",
+            witness=None if okf else {"list comprehensions over obj2dict(item)": seenf})
+
+    def _export():
+        from bounded import c16
+        bad = c16.export_with_private_display()
+        return {"confirmed": True, "input": "project A of the C16 stand-in, documented with display: public private protected", "actual": bad[:5], "expected": "modules.json holds accessible entities only",
+                "how": "real FORD run with externalize: true; bounded.c16.export_with_private_display"} if bad else None
+    out.append(astform.decide(rf, okf, _export))
     # 2. search order of Project.find without a kind: local collections before external ones
     fp = loader.import_repo("ford.fortran_project")
     order = list(dict.fromkeys(fp.LINK_TYPES.values()))
@@ -318,7 +342,8 @@ def structural(prop="C16"):
                   "comes before every collection of external entities", witness=None if not late_local else {"order": order, "searched after an external collection": late_local}))
     # 3. ... and Project.find does chain them in that order and takes the first match
     src = ast.unparse(loader.find_def("ford.fortran_project", "Project.find"))
-    uses = "chain(*(getattr(self, collection) for collection in LINK_TYPES.values()))" in src and "_find_in_list(collection, name)" in src
+    import re as _re
+    uses = bool(_re.search(r"chain\(\*\(getattr\(self, (\w+)\) for \1 in LINK_TYPES\.values\(\)\)\)", src)) and bool(_re.search(r"_find_in_list\(\w+, name\)", src))
     out.append(OR(id=f"{prop}.S.Project.find.chains_LINK_TYPES_in_order", status=PROVED if uses else UNKNOWN, kind="S", role="pre", backend="ast", target="ford.fortran_project.Project.find",
                   desc="Project.find searches chain(*(getattr(self, c) for c in LINK_TYPES.values())) with _find_in_list (first match; contract C16.A._find_in_list)",
                   detail="" if uses else "Project.find no longer has the shape this obligation is stated over"))
